@@ -23,11 +23,11 @@ type DM = DenseMatrix<f64>;
 const SVC_BUDGET: u64 = 1_000_000;
 const ENUM_BUDGET: u64 = 1_000_000;
 /// SVR: the number of SMO iterations grows with H = C·max_i K(x_i,x_i)/tol; on 60 000 fits of the
-/// unchanged tree the worst observed steps/H was 1.9 (H from 1 to 1e8, every fit terminated, the slowest
-/// after 1.7e8 steps). The budget of a fit is SVR_HEADROOM·H (at least SVR_MIN_BUDGET); where that
+/// unchanged tree the worst observed steps/H was 4.0 (H from 1 to 1e11, every fit terminated, the slowest
+/// after 1.7e8 steps; tail of steps/H: 99.9 % below 0.9, 99.99 % below 2.7). The budget of a fit is SVR_HEADROOM·H (at least SVR_MIN_BUDGET); where that
 /// exceeds SVR_CAP the fit runs under SVR_CAP and an overrun is *skipped* (slow convergence cannot be
 /// told from non-termination within an affordable budget), otherwise an overrun is a violation.
-const SVR_HEADROOM: f64 = 30.0;
+const SVR_HEADROOM: f64 = 200.0;
 const SVR_MIN_BUDGET: u64 = 100_000;
 const SVR_CAP: u64 = 5_000_000;
 const NOT_PSD_SVR_BUDGET: u64 = 200_000;
@@ -732,7 +732,7 @@ fn svr_fit_check<K: K64>(kern: K, c: &mut Case, cfg: &SvrCfg) {
     let wanted = (SVR_HEADROOM * hardness).max(SVR_MIN_BUDGET as f64);
     let decidable = psd && wanted <= SVR_CAP as f64;
     let budget = if !psd { NOT_PSD_SVR_BUDGET } else if decidable { wanted as u64 } else { SVR_CAP };
-    c.bucket_if(psd && !decidable, "svr:termination-undecidable-zone(30·C·maxK/tol > 5e6)");
+    c.bucket_if(psd && !decidable, "svr:termination-undecidable-zone(200·C·maxK/tol > 5e6)");
     set_step_budget(budget);
     let r = if decidable {
         c.must("svr.fit", || SVR::fit(&xm, &cfg.y, params))
@@ -752,7 +752,7 @@ fn svr_fit_check<K: K64>(kern: K, c: &mut Case, cfg: &SvrCfg) {
                     c.skip("SVR with a kernel that is not positive semi-definite did not stop within the step budget (termination not demanded)");
                 } else if p.is_budget() {
                     c.bucket("svr:slow-convergence:step-cap-exhausted");
-                    c.skip("SVR in the slow-convergence zone (30·C·maxK/tol > 5e6) did not stop within the 5e6-step cap; not decidable");
+                    c.skip("SVR in the slow-convergence zone (200·C·maxK/tol > 5e6) did not stop within the 5e6-step cap; not decidable");
                 } else {
                     c.count("no-panic:svr.fit");
                     c.violate("no-panic:svr.fit", &p.loc(), p.short());
@@ -1100,7 +1100,7 @@ fn main() {
         assumptions: vec![
             "f64 and DenseMatrix only (backend equivalence is C20)",
             "SVC schedules are forced through the verif hook (replayable); the unforced path is exercised by svc_unforced whose schedule is recorded but cannot be replayed bit-for-bit",
-            "non-termination is restated as a logical step budget. SVC: 1e6 reprocess steps per fit (worst fit on the unchanged tree: 316). SVR: 30·C·max_i K(x_i,x_i)/tol steps (>= 1e5; worst observed steps/(C·maxK/tol) on 60 000 fits: 1.9); where that exceeds 5e6 the fit runs under a 5e6 cap and an overrun is skipped, not reported (all such fits of the unchanged tree terminate when given up to 1.7e8 steps)",
+            "non-termination is restated as a logical step budget. SVC: 1e6 reprocess steps per fit (worst fit on the unchanged tree: 316). SVR: 200·C·max_i K(x_i,x_i)/tol steps (>= 1e5; worst observed steps/(C·maxK/tol) on 60 000 fits: 4.0); where that exceeds 5e6 the fit runs under a 5e6 cap and an overrun is skipped, not reported (all such fits of the unchanged tree terminate when given up to 1.7e8 steps)",
             "SVR KKT slack = 1.0*tol (theoretical bound of the stopping rule: tol/2) + 1e-9*(max|y| + eps + |b| + max_x Σ|w_i K(sv_i,x)|); weights within 1e-12*C of ±C are treated as 'at bound' (the weaker condition)",
             "SVR optimality and termination are only demanded for PSD kernels; for the others a budget overrun is counted as skipped",
             "support vectors are matched to training rows by exact equality; with duplicate rows any assignment that satisfies the conditions is accepted",
